@@ -99,9 +99,11 @@ class PyVal:
 class SeqView:
     """Uniform (len, at) view used for iteration and quantification."""
 
-    __slots__ = ("len", "at", "elem_ty", "facts")
+    __slots__ = ("len", "at", "elem_ty", "facts", "keys", "index_of")
 
-    def __init__(self, length, at, elem_ty=ANY, facts=None):
+    def __init__(self, length, at, elem_ty=ANY, facts=None, keys=None, index_of=None):
+        self.index_of = index_of  # enumeration views: V term -> Int index (inverse of `at`), avoids an existential
+        self.keys = keys  # for dict.values()/items(): the view of the corresponding keys
         self.len = length
         self.at = at  # python callable: z3 Int -> value
         self.elem_ty = elem_ty
